@@ -108,6 +108,9 @@ def _sample_obs(h):
     return sorted(rows)
 
 
+_ARGS = {}
+
+
 def _run(case, salt):
     from hypergraphx.generation.hy_mmsbm_sampling import HyMMSBMSampler
 
@@ -126,8 +129,12 @@ def _run(case, salt):
             init = _gen.build_hypergraph(case["spec"])
             kw["initial_hyg"] = init
         elif case["mode"] == "sequences":
-            kw["deg_seq"] = np.array(case["deg_seq"])
-            kw["dim_seq"] = {s: c for s, c in case["dim_seq"]}
+            # the caller's own objects: the same array and the same dict go to both same-seed runs
+            key = (case["seed"], "seqargs")
+            if key not in _ARGS:
+                _ARGS.clear()
+                _ARGS[key] = (np.array(case["deg_seq"]), {s: c for s, c in case["dim_seq"]})
+            kw["deg_seq"], kw["dim_seq"] = _ARGS[key]
         if case.get("first"):
             try:
                 g0 = sampler.sample(deg_seq=np.array(case["first"]["deg_seq"]), dim_seq={a: b for a, b in case["first"]["dim_seq"]})
@@ -225,6 +232,11 @@ def execute(case):
             b, fb, _ = _run(case, salt=True)
         except DrawBudgetExceeded as e:
             raise Violation("C16/liveness-draw-budget", {"why": str(e), "mode": case["mode"]})
+        if case["mode"] == "sequences" and (case["seed"], "seqargs") in _ARGS:
+            dg, dm = _ARGS[(case["seed"], "seqargs")]
+            if dg.tolist() != list(case["deg_seq"]) or dm != {s: c for s, c in case["dim_seq"]}:
+                raise Violation("C16/argument-modified", {"deg_seq_now": dg.tolist(), "dim_seq_now": short(dm),
+                                                          "deg_seq": case["deg_seq"], "dim_seq": case["dim_seq"]})
         if a["raised"] != b["raised"] or len(a["samples"]) != len(b["samples"]):
             raise Violation("C16/same-seed/different-outcome", {"first": a["raised"], "second": b["raised"],
                                                                 "n_first": len(a["samples"]), "n_second": len(b["samples"])})
